@@ -734,6 +734,7 @@ def _strip(interp, s, chars, left, right):
         return charclass.strip_space(interp, s, left, right)
     if isinstance(chars, Sym) or not chars:
         raise Unsupported('strip with symbolic character set')
+    chars = ''.join(sorted(set(chars)))      # (the set of characters is what matters: one function per set)
     kind = ('l' if left else '') + ('r' if right else '')
     f = z3.Function('str.%sstrip[%r]' % ({'lr': '', 'l': 'l', 'r': 'r'}[kind], chars), z3.StringSort(),
                     z3.StringSort())
